@@ -342,6 +342,14 @@ def length_bombs():
             for tail in (b"", b"x", b"abc."):
                 out.append(op + enc + tail)
                 out.append(b"\x80\x02" + op + enc + tail)
+    # a huge announced length followed by a real payload beyond any preallocation cap (64 KiB), then EOF:
+    # memory must follow the bytes that actually arrive
+    body = b"p" * 70000
+    for op, w in LEN_OPS:
+        for n in (1 << 28, (1 << 31) - 1, 1 << 40):
+            if n >= 1 << (8 * w):
+                continue
+            out.append(op + n.to_bytes(w, "little") + body)
     return out
 
 def mutate(rng, data, n=1):
